@@ -21,6 +21,7 @@ import (
 	"github.com/ClickHouse/ch-go/proto"
 
 	"verifharness/colgen"
+	"verifharness/oldquery"
 	"verifharness/simconn"
 )
 
@@ -309,7 +310,7 @@ func (q *queryServer) one(rev int, scn string) {
 		return
 	}
 	var qq proto.Query
-	if err := qq.DecodeAware(q.r, rev); err != nil {
+	if err := oldquery.Decode(q.r, rev, &qq); err != nil {
 		return
 	}
 	for { // external tables until the blank block
@@ -499,9 +500,9 @@ func runQuery(s Session, cl *ch.Client, conn *simconn.Conn, base, rev int) (Even
 	// have to make the equation hold
 	var dq proto.Query
 	free := proto.ClientInfo{}
-	if len(stream) > 0 && rev >= 54429 {
+	if len(stream) > 0 {
 		r := proto.NewReader(bytes.NewReader(stream[1:]))
-		if err := dq.DecodeAware(r, rev); err == nil {
+		if err := oldquery.Decode(r, rev, &dq); err == nil {
 			free = dq.Info
 		}
 	}
@@ -538,9 +539,9 @@ func runQuery(s Session, cl *ch.Client, conn *simconn.Conn, base, rev int) (Even
 		// skip the query packet using the library's decoder, then follow code, table name, frame
 		r := bytes.NewReader(stream)
 		pr := proto.NewReader(r)
-		if _, err := pr.UVarInt(); err == nil && rev >= 54429 {
+		if _, err := pr.UVarInt(); err == nil {
 			var skip proto.Query
-			_ = skip.DecodeAware(pr, rev)
+			_ = oldquery.Decode(pr, rev, &skip)
 		}
 		// the reader buffered ahead: recompute the offset by re-encoding length is not possible, so search for
 		// the frames structurally from the known packet sequence instead
@@ -573,13 +574,10 @@ func runQuery(s Session, cl *ch.Client, conn *simconn.Conn, base, rev int) (Even
 
 // queryLen finds the end of the Query packet by decoding it with the library (offsets only).
 func queryLen(stream []byte, rev int) int {
-	if rev < 54429 {
-		return -1
-	}
 	for n := 1; n <= len(stream); n++ {
 		r := proto.NewReader(bytes.NewReader(stream[1:n]))
 		var q proto.Query
-		if q.DecodeAware(r, rev) == nil {
+		if oldquery.Decode(r, rev, &q) == nil {
 			return n
 		}
 	}
